@@ -7,5 +7,5 @@ Extraction "extracted/c10_model.ml" qlt qsum clamp best_of stump_cands stump_fit
   dense_cands dense_fit kbest_cands kbest_fit kbest_rss_seq fit_chunked rss_of stump_pred hinge_pred affine_pred
   group incr predict zeros scale try_merge merge predict_all tree_of_stump find keys_of
   kbest_sorted kbest_hashes kbest_tables kbest_pred ksplit_trials ksplit_rss_seq ksplit_fit ksplit_pred c_dist c_mean c_rss closest cpairs
-  tree_wf tree_bfs assigned walk_from tree_group side_of
+  tree_wf tree_bfs bfs_done assigned walk_from tree_group side_of
   Qred Qplus Qminus Qmult Qdiv Qopp Qle_bool Qeq_bool inject_Z.
